@@ -5,6 +5,7 @@
    every junk.  This file contains only statements, `exact` proofs and Print Assumptions. *)
 From Coq Require Import ZArith List Bool.
 From ScV Require Import C11.IoModel C11.IoLists C11.IoSinkProofs C11.IoSourceProofs.
+From ScV Require Import Base.CInt Gen.IoC11 C11.IoGen.
 Import ListNotations.
 Local Open Scope Z_scope.
 
@@ -403,3 +404,147 @@ Example C11_ex_source : let s := source_new_filefile [1;2;3;4;5] 1 in
   map o_cnt (snd (source_run (fun _ => 0) 238 s [RMirrorOn; RRead 2 true true NoFault; RAlign 4 NoFault; RRead 3 true true NoFault; RMirrorRead 8 true true]))
   = [None; Some 2; None; Some 0; Some 2].
 Proof. unfold source_wf, eof_ok, is_file, mirror_wf. vm_compute. repeat split; try reflexivity; try discriminate. Qed.
+
+(* ===== tie T1: the model computes what the definitions GENERATED from /repo/src/sc_io.c compute ============================== *)
+(* Gen/IoC11.v is regenerated from the working tree on every run (tools/c2g/groups_C11.py); an edit of the arithmetic in
+   sc_io.c changes a generated definition and the statements below stop checking.  BIG = 2^62 bounds every byte count. *)
+
+(* sc_io_sink_write: the generated new_count is the model's ceil ((buffer_bytes + bytes_avail) / elem_size) *)
+Theorem C11_gen_sink_new_count : forall esz bb n, 0 < esz -> 0 <= bb -> 0 <= n -> bb + n + esz < BIG ->
+  sink_new_count esz bb n = (bb + n + esz - 1) / esz.
+Proof. exact gen_sink_new_count. Qed.
+Print Assumptions C11_gen_sink_new_count.
+
+(* ... the least number of whole elements that holds the bytes, stated of the GENERATED definition *)
+Theorem C11_gen_sink_new_count_ceil : forall esz bb n, 0 < esz -> 0 <= bb -> 0 <= n -> bb + n + esz < BIG ->
+  let c := sink_new_count esz bb n in (c - 1) * esz < bb + n <= c * esz.
+Proof. exact gen_sink_new_count_ceil. Qed.
+Print Assumptions C11_gen_sink_new_count_ceil.
+
+(* the unconditional size check of sc_io_sink_write on a view (byte_alloc = -(capacity + 1)) is the model's arr_fits *)
+Theorem C11_gen_sink_view_check_view : forall a, a_view a = true -> 0 <= a_cnt a * a_esz a < BIG -> len (a_mem a) < BIG ->
+  sink_view_check (a_cnt a) (a_esz a) (- (len (a_mem a) + 1)) = negb (arr_fits a).
+Proof. exact gen_sink_view_check_view. Qed.
+Print Assumptions C11_gen_sink_view_check_view.
+
+(* ... and on an owner (byte_alloc >= elem_count * elem_size after sc_array_resize) it never fires, as in the model *)
+Theorem C11_gen_sink_view_check_owner : forall a ba, a_view a = false -> 0 <= a_cnt a * a_esz a <= ba -> ba < BIG ->
+  sink_view_check (a_cnt a) (a_esz a) ba = negb (arr_fits a).
+Proof. exact gen_sink_view_check_owner. Qed.
+Print Assumptions C11_gen_sink_view_check_owner.
+
+(* the model's sc_io_sink_write on a buffer sink written with the generated new_count / buffer_bytes / counters *)
+Theorem C11_gen_sink_write_buffer : forall junk s a d flt, k_dev s = DBuf a -> 0 < a_esz a -> 0 <= k_bb s -> 0 <= k_in s -> 0 <= k_out s ->
+  k_bb s + len d + a_esz a < BIG -> k_in s + len d < BIG -> k_out s + len d < BIG ->
+  sink_write junk s d flt =
+  let n := len d in
+  if n =? 0 then (s, E_NONE) else
+  let nc := sink_new_count (a_esz a) (k_bb s) n in
+  let a' := arr_resize junk a nc in
+  if negb (arr_fits a') then (mkSink (DBuf a') (k_bb s) (k_in s) (k_out s), E_FATAL)
+  else match put (k_bb s) d (a_mem a') with
+       | None => (mkSink (DBuf a') (k_bb s) (k_in s) (k_out s), E_OOB)
+       | Some m => let '(bb', bo) := sink_buffer_advance (k_bb s) n in
+                   let '(i', o') := sink_counters (k_in s) n (k_out s) bo in
+                   (mkSink (DBuf (mkArr (a_esz a) (a_cnt a') (a_view a') m)) bb' i' o', E_NONE)
+       end.
+Proof. exact gen_sink_write_buffer. Qed.
+Print Assumptions C11_gen_sink_write_buffer.
+
+(* sc_io_sink_complete returns AGAIN exactly when the generated test says so *)
+Theorem C11_gen_sink_complete_buffer : forall s a ff, k_dev s = DBuf a ->
+  sink_complete s ff = if sink_again (k_bb s) (a_esz a) then (s, E_AGAIN, None)
+                       else (mkSink (k_dev s) (k_bb s) 0 0, E_NONE, Some (k_in s, k_out s)).
+Proof. exact gen_sink_complete_buffer. Qed.
+Print Assumptions C11_gen_sink_complete_buffer.
+
+(* sc_io_source_complete returns AGAIN exactly when the generated test says so *)
+Theorem C11_gen_source_complete_buffer : forall s a, r_dev s = RBuf a ->
+  source_complete s = if source_again (r_bb s) (a_esz a) then (s, E_AGAIN, None)
+                      else (mkSrc (r_dev s) (r_bb s) 0 0 (r_eof s) (r_mir s), E_NONE, Some (r_in s, r_out s)).
+Proof. exact gen_source_complete_buffer. Qed.
+Print Assumptions C11_gen_source_complete_buffer.
+
+(* sc_io_sink_align: the generated fill is the model's (align - out mod align) mod align *)
+Theorem C11_gen_sink_align_fill : forall al out, 0 < al < BIG -> sink_align_fill al out = align_fill out al.
+Proof. exact gen_sink_align_fill. Qed.
+Print Assumptions C11_gen_sink_align_fill.
+
+(* sc_io_source_align: the same *)
+Theorem C11_gen_source_align_fill : forall al out, 0 < al < BIG -> source_align_fill al out = align_fill out al.
+Proof. exact gen_source_align_fill. Qed.
+Print Assumptions C11_gen_source_align_fill.
+
+(* the model's sc_io_sink_align writes the generated number of zero bytes *)
+Theorem C11_gen_sink_align : forall junk s al flt, 0 < al < BIG ->
+  sink_align junk s al flt = sink_write junk s (zeros (sink_align_request (sink_align_fill al (k_out s)))) flt.
+Proof. exact gen_sink_align. Qed.
+Print Assumptions C11_gen_sink_align.
+
+(* the model's sc_io_source_align skips the generated number of bytes *)
+Theorem C11_gen_source_align : forall junk s al flt, 0 < al < BIG ->
+  source_align junk s al flt =
+  let '(s', rc, _, _) := source_read junk s (source_align_request (source_align_fill al (r_out s))) None false flt in (s', rc).
+Proof. exact gen_source_align. Qed.
+Print Assumptions C11_gen_source_align.
+
+(* sc_io_source_read: bytes still available in the buffer (0 if it has shrunk below the read position) *)
+Theorem C11_gen_source_avail : forall cnt esz bb, 0 <= cnt * esz < BIG -> 0 <= bb < BIG ->
+  source_avail cnt esz bb = (let total := cnt * esz in if total <? bb then 0 else total - bb).
+Proof. exact gen_source_avail. Qed.
+Print Assumptions C11_gen_source_avail.
+
+(* sc_io_source_read: SC_MIN (available, requested) *)
+Theorem C11_gen_source_take : forall avail n, source_take avail n = Z.min avail n.
+Proof. exact gen_source_take. Qed.
+Print Assumptions C11_gen_source_take.
+
+(* sc_io_source_read: the exact-request test bytes_out == NULL && bbytes_out < bytes_avail *)
+Theorem C11_gen_source_short : forall (wc : bool) p k n, p <> 0 -> source_short (if wc then p else 0) k n = negb wc && (k <? n).
+Proof. exact gen_source_short. Qed.
+Print Assumptions C11_gen_source_short.
+
+(* the tail of the model's sc_io_source_read written with the generated test and counters *)
+Theorem C11_gen_read_finish : forall s n wc retval k data p, p <> 0 -> 0 <= r_in s -> 0 <= r_out s -> 0 <= k -> r_in s + k < BIG -> r_out s + k < BIG ->
+  read_finish s n wc retval k data =
+  if retval then (s, E_FATAL, None, data)
+  else if source_short (if wc then p else 0) k n then (s, E_FATAL, None, data)
+  else let '(i', o') := source_counters (r_in s) k (r_out s) in
+       (mkSrc (r_dev s) (r_bb s) i' o' (r_eof s) (r_mir s), E_NONE, if wc then Some k else None, data).
+Proof. exact gen_read_finish. Qed.
+Print Assumptions C11_gen_read_finish.
+
+(* the model's sc_io_source_read on a buffer source written with the generated available / taken counts *)
+Theorem C11_gen_source_read_buffer : forall junk s a n data wc flt, r_dev s = RBuf a -> 0 <= a_cnt a * a_esz a < BIG -> 0 <= r_bb s < BIG ->
+  source_read junk s n data wc flt =
+  if (n =? 0) || r_eof s then
+    (if wc then (s, E_NONE, Some 0, data) else if 0 <? n then (s, E_FATAL, None, data) else (s, E_NONE, None, data))
+  else
+    let avail := source_avail (a_cnt a) (a_esz a) (r_bb s) in
+    if avail =? 0 then read_finish (mkSrc (r_dev s) (r_bb s) (r_in s) (r_out s) true (r_mir s)) n wc false 0 data
+    else let k := source_take avail n in
+         let data' := match data with Some u => Some (take k (drop (r_bb s) (a_mem a)) ++ drop k u) | None => None end in
+         read_finish (mkSrc (r_dev s) (r_bb s + k) (r_in s) (r_out s) (r_eof s) (r_mir s)) n wc false k data'.
+Proof. exact gen_source_read_buffer. Qed.
+Print Assumptions C11_gen_source_read_buffer.
+
+(* sc_io_file_load: the window size *)
+Theorem C11_gen_load_bwins : bwins = load_bwins.
+Proof. exact gen_load_bwins. Qed.
+Print Assumptions C11_gen_load_bwins.
+
+(* sc_io_file_load: start, room made, bytes requested, target position, end-of-file test, final size, next position *)
+Theorem C11_gen_load_window : forall bpos bout, 0 <= bpos -> 0 <= bout -> bpos + bwins < BIG -> bpos + bout < BIG ->
+  load_start = 0 /\ load_room bpos load_bwins = bpos + bwins /\ load_request load_bwins = bwins /\ load_target bpos = bpos /\
+  load_last bout load_bwins = (bout <? bwins) /\ load_final bpos bout = bpos + bout /\ load_next bpos load_bwins = bpos + bwins.
+Proof. exact gen_load_window. Qed.
+Print Assumptions C11_gen_load_window.
+
+(* the model's sc_io_file_load runs its loop with the generated window from the generated start *)
+Theorem C11_gen_file_load_start : forall junk fuel c b flts cf, file_load junk fuel (Some c) b flts cf =
+  match source_new_filename true c with
+  | Some src => load_loop junk load_bwins fuel src b load_start flts cf
+  | None => Some (-1, b)
+  end.
+Proof. exact gen_file_load_start. Qed.
+Print Assumptions C11_gen_file_load_start.
